@@ -18,7 +18,7 @@ package determinant
 
 /* -------------------------------------------------------------------------- */
 
-//import   "fmt"
+import   "fmt"
 //import   "math"
 
 import . "github.com/pbenner/autodiff"
@@ -108,6 +108,9 @@ func determinantPD(a ConstMatrix, logScale bool, inSitu *InSitu) (Scalar, error)
 }
 
 func determinant(a ConstMatrix, positiveDefinite, logScale bool, inSitu *InSitu) (Scalar, error) {
+  if n, m := a.Dims(); n != m {
+    return nil, fmt.Errorf("matrix is not a square matrix")
+  }
   if positiveDefinite {
     return determinantPD(a, logScale, inSitu)
   } else {
